@@ -52,7 +52,7 @@ func root() string {
 	return "/verif"
 }
 
-func raceLogPrefix() string { return filepath.Join(root(), "work", "C10", "race") }
+func raceLogPrefix() string { return filepath.Join(run.WorkRoot(root()), "C10", "race") }
 
 // ---------- operands ----------
 
@@ -604,7 +604,7 @@ func post(d *run.Driver) {
 			ks = append(ks, fmt.Sprintf("%s x%d", k, n))
 		}
 		sort.Strings(ks)
-		dir := filepath.Join(d.Root, "replays", "C10")
+		dir := filepath.Join(run.ReplayRoot(d.Root), "C10")
 		os.MkdirAll(dir, 0o755)
 		path := filepath.Join(dir, "race-report.txt")
 		os.WriteFile(path, []byte(strings.Join(ks, "\n")+"\n\n"+first), 0o644)
